@@ -78,6 +78,7 @@ class StoreEngine(Engine):
         # Chain.force(recompute=True) iterates a set of task objects (address order): the order of the runs inside such an
         # operation is not constrained by any property -> compared as a sorted multiset without run ids / clock readings
         setops = {op['i'] for p in scn['procs'] for op in p['ops'] if op['op'] in ('cforce', 'mforce') and (op.get('recompute') or op.get('delete'))}
+        failing = {op['i'] for p in scn['procs'] for op in p['ops'] if op['op'] == 'cforce' and op.get('fault_expected')}
         out = []
         tainted_after = None
         for o in obs:
@@ -85,6 +86,10 @@ class StoreEngine(Engine):
                 o = dict(o)
                 o['inv'] = sorted([r['task'], r.get('key'), r.get('h')] for r in o.get('inv', []))
                 o['fs'] = sorted(set(map(str, o.get('fs', []))))   # set: pathlib retries mkdir when a parent is missing
+                if o['i'] in failing:
+                    # a task downstream of the failing one may or may not have been reached (its directory made, its log opened)
+                    # before the failure, depending on that order: only what ran is compared
+                    o.pop('fs', None)
                 o.pop('clock', None)
                 tainted_after = o['i']
             elif tainted_after is not None:
